@@ -102,17 +102,28 @@ def build_agg_model():
     return amodel
 
 
-def proofs_all(ctx, files):
-    """ctx.proofs for both theorem files (the pattern of checks/c15.py).  Quick tier: the two re-checks (coqc of the
-    Theorems file + Print Assumptions audit; the .vo builds stay serialised by common's lock) run in two threads, then
-    ctx.proofs does its bookkeeping per file, in order, with the results already computed.  Thorough tier: strictly
-    sequential (ctx.proofs also runs coqchk, never two at once)."""
+def proofs_start(ctx, files):
+    """Quick tier: the re-checks of the theorem files (coqc of each Theorems file + Print Assumptions audit; the .vo builds
+    stay serialised by common's lock) start in two threads and run while the correspondence and the search do (the pattern
+    of checks/c15.py); proofs_finish waits for them and lets ctx.proofs do its bookkeeping per file, in order, with the
+    results already computed.  Thorough tier: nothing is started, ctx.proofs runs strictly sequentially in proofs_finish
+    (it also runs coqchk, never two at once)."""
     if ctx.tier != "quick":
-        return [ctx.proofs("c02", f) for f in files]
+        return None
     from concurrent.futures import ThreadPoolExecutor
+    ex = ThreadPoolExecutor(max_workers=2)
     orig = common.coq_check_theorems
-    with ThreadPoolExecutor(max_workers=2) as ex:
-        res = dict(zip(files, ex.map(lambda f: orig("c02", f), files)))
+    return ex, orig, [(f, ex.submit(orig, "c02", f)) for f in files]
+
+
+def proofs_finish(ctx, started, files):
+    if started is None:
+        return [ctx.proofs("c02", f) for f in files]
+    ex, orig, futs = started
+    try:
+        res = dict((f, fu.result()) for f, fu in futs)
+    finally:
+        ex.shutdown(wait=True)
     common.coq_check_theorems = lambda d, f, **kw: res[f] if (d == "c02" and f in res) else orig(d, f, **kw)
     try:
         return [ctx.proofs("c02", f) for f in files]
@@ -187,7 +198,8 @@ def run(ctx):
     leaves, conts = c01check.model_names(model)
     ctx.notes["modelled_leaf_types"] = leaves
     ctx.notes["modelled_container_types"] = conts
-    pr, pra = proofs_all(ctx, ["C02Theorems.v", "C02AggTheorems.v"])
+    thm_files = ["C02Theorems.v", "C02AggTheorems.v"]
+    started = proofs_start(ctx, thm_files)
     n = ctx.n(5000, 150000)
     lines, mism = c01check.run_corr(ctx, exe1, model,
                                     ["-seed", str(ctx.seed + 1000), "-n", str(n), "-kinds", ",".join(leaves + conts)],
@@ -225,6 +237,7 @@ def run(ctx):
         ctx.failing_input(f[1], f[2], f[3], f[4])
     ctx.notes["search_evaluations"] = node_evals + ctx.notes.get("aggregate_histories", 0)
     ctx.log("aggregates: %d histories, %d failing" % (ctx.notes.get("aggregate_histories", 0), len(afails)))
+    pr, pra = proofs_finish(ctx, started, thm_files)
     if mism and not c01check.fails_unknown(ctx):
         by_id = {}
         for l in lines:
